@@ -23,7 +23,7 @@ RULE = ('(ii) for every mutating operation of a table of ~30 operations (all sto
         'must work. evaluations = invariant evaluations; distinct_nontrivial = distinct (operation, gate kind, '
         'position, persistent) failpoints + distinct unencodable cases')
 DISTINCT = ('failpoints', 'unencodable_cases', 'concurrent_schedules')
-REQUIRED = ('lazy_culls_mixing_expiry_and_eviction', 'failpoints_injected', 'ops_with_all_gates_enumerated', 'unencodable_values', 'lock_timeouts',
+REQUIRED = ('programs_with_removals_beside_abandoned_blocks', 'lazy_culls_mixing_expiry_and_eviction', 'failpoints_injected', 'ops_with_all_gates_enumerated', 'unencodable_values', 'lock_timeouts',
             'history_calls', 'concurrent_programs', 'failures_after_file_written', 'expired_file_row_paths',
             'failures_injected_into_concurrent_programs', 'handles_opened_during_concurrent_programs',
             'timeouts_under_commit_contention',
@@ -566,6 +566,21 @@ def concurrent_program(dc, sc, res, rng, label):
     for k, v in init.items():
         setup.set(k, v)
     shared = rng.random() < 0.5
+    removals_beside_blocks = rng.random() < 0.25
+    if removals_beside_blocks:
+        # one thread takes file-backed items out (pop, delete, replace by an inline value) with plain calls while
+        # another thread of the same object opens blocks and abandons them: where a removed value's file goes must not
+        # depend on somebody else's transaction
+        shared = True
+        nclients = 2
+        keys = ['r0', 'r1', 'r2', 'r3']
+        for k in keys:
+            init[k] = c05.stamp(9, len(init), True)
+            setup.set(k, init[k])
+        prog = [[(rng.choice(['pop', 'pop', 'delete']), (k,) + (('MISS',) if True else ()), {}) for k in keys[:3]],
+                [('set', ('b%d' % i, c05.stamp(1, i, True)), {}) for i in range(3)]]
+        prog[0] = [(op, (a[0], 'MISS') if op == 'pop' else (a[0],), kw) for op, a, kw in prog[0]]
+        res.count('programs_with_removals_beside_abandoned_blocks')
     # clients with their own handle open it inside the schedule half of the time, and some re-open it between two
     # calls, while the others are writing: opening a handle must not disturb the counters
     late = (not shared) and rng.random() < 0.6
@@ -601,7 +616,7 @@ def concurrent_program(dc, sc, res, rng, label):
                 if j == reopen_at[ci]:
                     caches[ci] = dc.Cache(d, timeout=0)
                     opened.append(caches[ci])
-                if rng.random() < 0.25:
+                if (removals_beside_blocks and ci == 1) or (not removals_beside_blocks and rng.random() < 0.25):
                     def blk():
                         try:
                             with caches[ci].transact(retry=True):
